@@ -42,6 +42,9 @@ pub struct StallScript {
     /// all on its registration stream, so that even the server's answer to it cannot be delivered
     #[serde(default)]
     pub zero_window_peer: bool,
+    /// additionally probe topic B from the very connection whose publisher is blocked on topic A
+    #[serde(default)]
+    pub probe_from_publisher_conn: bool,
 }
 
 pub fn gen_script(rng: &mut Rng) -> StallScript {
@@ -60,6 +63,7 @@ pub fn gen_script(rng: &mut Rng) -> StallScript {
         stall_wait_ms: *rng.pick(&[2_000u64, 4_000]),
         probe_from_queued_conn: rng.chance(1, 2),
         zero_window_peer: rng.chance(1, 3),
+        probe_from_publisher_conn: rng.chance(1, 2),
     }
 }
 
@@ -73,6 +77,7 @@ pub struct StallReport {
     pub probe_ms: u64,
     /// Some(result) if the queued-connection probe ran
     pub queued_conn_probe_ok: Option<bool>,
+    pub publisher_conn_probe_ok: Option<bool>,
     pub notes: Vec<String>,
 }
 
@@ -218,6 +223,20 @@ async fn scenario(world: Rc<World>, sc: StallScript) -> AResult<StallReport> {
             rep.notes.push("queued-connection probe timed out after 10 virtual seconds".into());
         }
     }
+    if sc.probe_from_publisher_conn {
+        let gsub = world.new_group();
+        let w = world.clone();
+        let pc = &pub_client;
+        let r = tokio::time::timeout(Duration::from_secs(15), async move {
+            let sub_client = ACTOR.scope(gsub, async move { w.client(BackoffStrategy::constant().with_max_attempts(0)).await }).await?;
+            Ok::<bool, anyhow::Error>(probe_roundtrip(&sub_client, gsub, pc, gp, "/other/topicp").await)
+        })
+        .await;
+        rep.publisher_conn_probe_ok = Some(matches!(r, Ok(Ok(true))));
+        if !matches!(r, Ok(Ok(true))) {
+            rep.notes.push("probe from the blocked publisher's own connection failed".into());
+        }
+    }
     pub_task.abort();
     drop(stalled);
     Ok(rep)
@@ -264,6 +283,12 @@ pub fn execute(prop: &str, sc: &StallScript, opts: &ExecOpts) -> Outcome {
                             bucket,
                             format!("topic A stalled (publisher blocked after {} messages), {} registrations queued on it ({} answered Ok): a pub/sub round trip on topic B did not complete within 10 virtual seconds ({:?})", rep.published_before_block, rep.regs_sent, rep.regs_answered_ok, rep.notes),
                         );
+                    }
+                    if rep.publisher_blocked && rep.publisher_conn_probe_ok == Some(false) {
+                        out.violate(prop, "other-topic-blocked", "publisher-connection", format!("topic A stalled: the client whose publisher is blocked on it could not publish on topic B over the same connection within 15 virtual seconds ({:?})", rep.notes));
+                    }
+                    if rep.publisher_conn_probe_ok == Some(true) {
+                        out.probe("probe_from_blocked_publishers_connection_ok");
                     }
                     if rep.publisher_blocked && rep.queued_conn_probe_ok == Some(false) {
                         let bucket = if rep.regs_sent >= 102 { "queued-connection:queue-overfull" } else { "queued-connection:queue-not-full" };
@@ -335,6 +360,11 @@ impl Family for StallFamily {
         if sc.zero_window_peer {
             let mut c = sc.clone();
             c.zero_window_peer = false;
+            out.push(c);
+        }
+        if sc.probe_from_publisher_conn {
+            let mut c = sc.clone();
+            c.probe_from_publisher_conn = false;
             out.push(c);
         }
         if sc.regs_before_stall > 0 {
